@@ -19,11 +19,11 @@ import (
 
 // Msg is one message to deliver to a reactor.
 type Msg struct {
-	Ch     byte
-	Kind   string // message type of the (unmutated) template
-	Mut    string // mutation applied ("valid": none)
-	Level  string // valid | go | proto | bytes
-	Bytes  []byte
+	Ch      byte
+	Kind    string // message type of the (unmutated) template
+	Mut     string // mutation applied ("valid": none)
+	Level   string // valid | go | proto | bytes
+	Bytes   []byte
 	Subject bool // the message under test (as opposed to prelude / postlude)
 }
 
@@ -51,22 +51,22 @@ var consKinds = []string{"NewRoundStep", "NewValidBlock", "Proposal", "ProposalP
 
 // live is a snapshot of the live state messages are generated from.
 type live struct {
-	e       *Env
-	H       uint64 // victim's consensus height (syncing: height of the running network)
-	R       uint32
-	Step    cstypes.RoundStepType
-	NVals   int
-	LCR     uint32 // last commit round
-	StoreH  uint64 // height of the reference block store
-	Ref     *netsim.Node // node whose store / round state provides real data (victim when caught up)
-	Prop    *types.Proposal
-	Parts   *types.PartSet
-	RealBID types.BlockID
-	FakeBID types.BlockID
-	Votes   []*types.Vote // real votes of the current height known to some node
-	AdvProposer bool // the attacker's validator is the proposer of (H,R)
-	Tmpl    int  // template variant of the well-formed messages: 0 prevote-flavoured, 1 precommit-flavoured
-	cache   map[string]Msg
+	e           *Env
+	H           uint64 // victim's consensus height (syncing: height of the running network)
+	R           uint32
+	Step        cstypes.RoundStepType
+	NVals       int
+	LCR         uint32       // last commit round
+	StoreH      uint64       // height of the reference block store
+	Ref         *netsim.Node // node whose store / round state provides real data (victim when caught up)
+	Prop        *types.Proposal
+	Parts       *types.PartSet
+	RealBID     types.BlockID
+	FakeBID     types.BlockID
+	Votes       []*types.Vote // real votes of the current height known to some node
+	AdvProposer bool          // the attacker's validator is the proposer of (H,R)
+	Tmpl        int           // template variant of the well-formed messages: 0 prevote-flavoured, 1 precommit-flavoured
+	cache       map[string]Msg
 }
 
 func snapshot(e *Env) *live {
